@@ -305,7 +305,7 @@ def _strategy():
 
 
 def plan(tier, seed):
-    n = 500 if tier == 'quick' else 8000
+    n = 1500 if tier == 'quick' else 10000
     return [{"seed": seed * 100 + i, "n": n} for i in range(16)]
 
 
